@@ -123,6 +123,16 @@ func (x *Exec) global(g *ssa.Global) *Value {
 		if ini := g.Pkg.Func("init"); ini != nil && ini.Blocks != nil {
 			x.runStdInit(ini)
 		}
+		// globals with a fixed model identity (io.EOF …) keep it
+		for _, m := range g.Pkg.Members {
+			if mg, ok := m.(*ssa.Global); ok {
+				if v, ok := x.externGlobal(mg); ok {
+					if p, ok := x.globals[mg]; ok {
+						*p = v
+					}
+				}
+			}
+		}
 		if p, ok := x.globals[g]; ok {
 			return p
 		}
